@@ -68,11 +68,40 @@ def outs_str(outs, now):
         ans = [(r, t) for (r, t) in o.answers]
         # every question of this outgoing shares the answer list; attribute answers to the question they answer
         for q in o.questions:
-            mine = sorted("%s:%d" % (C.rec_line(r).replace(" ", ","), r.get_remaining_ttl(now)) for (r, t) in ans
+            # the TTL field `_write_record` writes: from the time stored with the answer (0 = the record's own TTL)
+            mine = sorted("%s:%d" % (C.rec_line(r).replace(" ", ","), int(r.ttl) if t == 0 else int(r.get_remaining_ttl(t))) for (r, t) in ans
                           if r.name.lower() == q.name.lower() and r.type == q.type and r.class_ == q.class_)
             qs.append("q=%s k=%s" % (C.question_line(q).replace(" ", ","), ";".join(mine) if mine else "-"))
     qs.sort()
     return " | ".join(qs) if qs else "-"
+
+
+def wire_ttl_check(outs, cached, now, sig):
+    """decode every packet the implementation would send and compare the TTL field of each known answer with the remaining
+    TTL of the cached record it stands for: floor((created + 1000*ttl - now) / 1000)"""
+    from zeroconf import DNSIncoming, const
+
+    bad = []
+    for o in outs:
+        pk = o.packets()
+        msgs = [DNSIncoming(p) for p in pk]
+        tcs = [m.truncated for m in msgs]
+        if tcs != [True] * (len(msgs) - 1) + [False]:
+            bad.append(("C13:tc-bits", "TC bits of one query's packets are %s" % tcs))
+        for p_ in pk:
+            if len(p_) > const._MAX_MSG_TYPICAL:
+                bad.append(("C13:packet-size", "query packet of %d bytes" % len(p_)))
+        for m in msgs:
+            for a in m.answers():
+                src = [r for r in cached if r == a]
+                if not src:
+                    bad.append((sig, "a known answer on the wire (%s type %d) is not in the cache" % (a.name, a.type)))
+                    continue
+                want = int((src[0].created + 1000 * src[0].ttl - now) // 1000)
+                if a.ttl != want:
+                    bad.append((sig, "known answer %s type %d goes out with TTL %d; the cached record (TTL %d, age %d ms) has %d s left"
+                                % (a.name, a.type, a.ttl, src[0].ttl, now - src[0].created, want)))
+    return bad
 
 
 # ------------------------------------------------------------------------------------------
@@ -107,7 +136,9 @@ def gen_svc_case(rng, big=False):
         gap = rng.choice([0, 1, 500, 998, 999, 1000, 1001, 5000])
         for j in range(k):
             mode = rng.choice(["same", "same", "same", "fewer", "more", "responder", "responder-more"])
-            prevs.append({"gap": gap, "mode": mode, "qtype": rng.choice([qtype, "QM", "QM", "QM", "QU"])})
+            prevs.append({"gap": gap, "mode": mode, "qtype": rng.choice([qtype, "QM", "QM", "QM", "QU"]),
+                          # the 10 s cache clean-up tick (QuestionHistory.async_expire) may fall between two askers
+                          "expire_after": rng.choice([None, None, 0, 1, 500, 999, 1000]), "recase": rng.random() < 0.25})
             gap += rng.choice([0, 1, 500, 998, 999, 1000, 1000, 1001, 1500])
         prevs.reverse()
     return {"stream": "svc", "now": now, "recs": recs, "noise": noise, "types": types, "qtype": qtype, "multicast": multicast, "prevs": prevs}
@@ -163,7 +194,7 @@ def run_svc(case, res):
                 spec[ty.lower()] = (t, known)
         return outs_, qu_, expect
 
-    for pv in prevs:
+    for idx, pv in enumerate(prevs):
         then = now - pv["gap"]
         if pv["mode"].startswith("responder"):
             # heard on the link as an authoritative responder: recorded with the querier's known answers
@@ -175,10 +206,17 @@ def run_svc(case, res):
                     known.add(extra)
                     ids_ = ids_ | {(T, extra.alias.lower())}
                 if pv["qtype"] != "QU":
-                    z.question_history.add_question_at_time(DNSQuestion(ty, const._TYPE_PTR, const._CLASS_IN), float(then), known)
+                    z.question_history.add_question_at_time(DNSQuestion(ty.upper() if pv.get("recase") else ty, const._TYPE_PTR, const._CLASS_IN),
+                                                            float(then), known)
                     spec[ty.lower()] = (then, ids_)
         else:
             ask(then, base_of(pv["mode"]), pv["qtype"], False)
+        if pv.get("expire_after") is not None:
+            nxt = min([now - x["gap"] for x in prevs[idx + 1:]] + [now])
+            te = min(then + pv["expire_after"], nxt)
+            pre = hist_tokens(z.question_history)
+            z.question_history.async_expire(float(te))
+            pairs.append(("c13expire %d %s" % (te, pre), hist_str(z.question_history), "expire"))
     outs, qu, expect = ask(now, recs, case["qtype"], True)
     prev = prevs[-1] if prevs else None
     # ---- oracle on the implementation's output (packets)
@@ -301,6 +339,28 @@ def run_req(case, res):
         for ty in (const._TYPE_A, const._TYPE_AAAA):
             if not any(q.type == ty for q in out.questions):
                 bad.append(("C13:qu-suppressed", "QU lookup did not ask type %d" % ty))
+    # the packets themselves: each known answer with its remaining TTL
+    bad += wire_ttl_check([out], cached, now, "C13:lookup-known-answer-ttl")
+    # which questions must be there: SRV/TXT only without a fresh answer; QM suppressed iff the same lookup asked it QM at most
+    # 999 ms ago with a known-answer list we still cover (the property's own bookkeeping, independent of the library)
+    srv_name = info.server or name
+    for (qn, qt, skip) in ((name, const._TYPE_SRV, True), (name, const._TYPE_TXT, True), (srv_name, const._TYPE_A, False), (srv_name, const._TYPE_AAAA, False)):
+        def fresh(t):
+            return {C.rec_line(r) for r in cached if r.name.lower() == qn.lower() and r.type == qt and t < r.created + 500 * r.ttl}
+        k_now = fresh(now)
+        asked = any(q.name.lower() == qn.lower() and q.type == qt for q in out.questions)
+        if skip and k_now:
+            expect = False
+        elif case["qu"]:
+            expect = True
+        else:
+            then = None if case["prevgap"] is None else now - case["prevgap"]
+            recorded = then is not None and not case["prevqu"] and not (skip and fresh(then))
+            expect = not (recorded and case["prevgap"] <= 999 and fresh(then) <= k_now)
+        if asked != expect:
+            bad.append(("C13:lookup-question-presence", "lookup question %s/%d is %s; expected %s (QU=%s, earlier QM ask %s ms ago, fresh answers %d)"
+                        % (qn, qt, "asked" if asked else "absent", "asked" if expect else "absent", case["qu"],
+                           None if case["prevqu"] else case["prevgap"], len(k_now))))
     sig = (case["qu"], case["prevgap"], case["prevqu"], tuple(sorted(k for k, _, _ in case["recs"])), len(out.questions))
     return [(line, impl)], bad, sig
 
@@ -311,8 +371,13 @@ def run_req(case, res):
 
 def gen_hear_case(rng):
     return {"stream": "hear", "simseed": rng.randint(0, 10**6), "gap": rng.choice([0, 1, 500, 998, 999, 1000, 1001, 3000]),
-            "qu": rng.random() < 0.3, "nknown": rng.choice([0, 1, 3]), "extra": rng.random() < 0.4, "registered": rng.random() < 0.85,
-            "ours": rng.choice([0, 1, 3]), "cover": rng.random() < 0.45}
+            "qu": rng.random() < 0.3, "nknown": rng.choice([0, 1, 3]), "extra": rng.random() < 0.4, "registered": rng.choice([True, True, True, True, True, "other", False]),
+            "ours": rng.choice([0, 1, 3]), "cover": rng.random() < 0.45, "tc": rng.random() < 0.35,
+            # the heard question may spell the type in another case (same question: C20); the engine's 10 s clean-up tick may fall
+            # between hearing and asking
+            "recase": rng.random() < 0.3, "tick": rng.choice([None, None, 0.0, 0.5, 1.0])}
+    # "registered": True = authoritative for the type asked; "other" = has services, but of another type; False = no services
+
 
 
 def run_hear(case, res):
@@ -326,8 +391,11 @@ def run_hear(case, res):
         host = sim.make_host("B", "10.0.0.2")
         zc = host.zc
         await zc.async_wait_for_start()
-        if case["registered"]:
+        if case["registered"] is True:
             info = ServiceInfo(T, "Mine." + T, port=80, addresses=[b"\x0a\x00\x00\x02"], server="mine.local.")
+            zc.registry.async_add(info)
+        elif case["registered"] == "other":
+            info = ServiceInfo(T2, "Mine." + T2, port=80, addresses=[b"\x0a\x00\x00\x02"], server="mine.local.")
             zc.registry.async_add(info)
         await sim.sleep_ms(5000)
         now0 = sim.loop.ms
@@ -337,7 +405,7 @@ def run_hear(case, res):
             mine.append(ptr(T, "Mine." + T, 4500, now0 - 1000))
         zc.cache.async_add_records(mine)
         q = DNSOutgoing(const._FLAGS_QR_QUERY)
-        qq = DNSQuestion(T, const._TYPE_PTR, const._CLASS_IN)
+        qq = DNSQuestion(T.upper() if case.get("recase") else T, const._TYPE_PTR, const._CLASS_IN)
         qq.unicast = case["qu"]
         q.add_question(qq)
         theirs = [ptr(T, "Inst%d.%s" % (i, T), 4500, now0) for i in range(case["nknown"])]
@@ -346,14 +414,37 @@ def run_hear(case, res):
         if case.get("cover"):
             # ... and the peer already knows it: every answer we could give is suppressed, the question is heard all the same
             theirs.append(ptr(T, "Mine." + T, 4500, now0))
-        for r in theirs:
-            q.add_answer_at_time(r, 0)
         pre = hist_tokens(zc.question_history)
-        host.inject(q.packets()[0], "10.0.0.9", 5353)
-        out["hear"] = ("c13hear %d %s %s %d %s" % (now0, pre, C.question_line(qq), len(theirs), " ".join(C.rec_line(r, created=now0) for r in theirs)),
-                       hist_str(zc.question_history) if case["registered"] else None)
+        if case.get("tc") and len(theirs) >= 2:
+            # a truncated query: the known answers continue in a second packet from the same source; the responder must
+            # remember the question with the answers of *all* packets
+            half = len(theirs) // 2
+            q.flags |= const._FLAGS_TC
+            for r in theirs[:half]:
+                q.add_answer_at_time(r, 0)
+            q2 = DNSOutgoing(const._FLAGS_QR_QUERY)
+            for r in theirs[half:]:
+                q2.add_answer_at_time(r, 0)
+            host.inject(q.packets()[0], "10.0.0.9", 5353)
+            host.inject(q2.packets()[0], "10.0.0.9", 5353)
+        else:
+            for r in theirs:
+                q.add_answer_at_time(r, 0)
+            host.inject(q.packets()[0], "10.0.0.9", 5353)
+        can = case["registered"] is True
+        out["hear"] = ("c13hear %s %d %s %s %d %s" % (C.b01(can), now0, pre, C.question_line(qq), len(theirs),
+                                                     " ".join(C.rec_line(r, created=now0) for r in theirs)),
+                       hist_str(zc.question_history))
         out["heard"] = hist_str(zc.question_history)
-        await sim.sleep_ms(case["gap"])
+        if case.get("tick") is not None:
+            g1 = int(case["gap"] * case["tick"])
+            await sim.sleep_ms(g1)
+            pre_t = hist_tokens(zc.question_history)
+            zc.engine._async_cache_cleanup()  # the reaper tick (it re-arms itself; an extra timer chain is harmless here)
+            out["tick"] = ("c13expire %d %s" % (sim.loop.ms, pre_t), hist_str(zc.question_history), "expire")
+            await sim.sleep_ms(case["gap"] - g1)
+        else:
+            await sim.sleep_ms(case["gap"])
         now = sim.loop.ms
         pre_hist, pre_cache = hist_tokens(zc.question_history), cache_tokens(zc.cache)
         outs = B.generate_service_query(zc, float(now), {T}, True, None)
@@ -365,15 +456,13 @@ def run_hear(case, res):
     bad = []
     theirs_set = set(range(case["nknown"])) | ({"x"} if case["extra"] else set())
     ours_set = set(range(case["ours"]))
-    expect_sup = case["registered"] and not case["qu"] and case["gap"] <= 999 and theirs_set <= ours_set
+    expect_sup = case["registered"] is True and not case["qu"] and case["gap"] <= 999 and theirs_set <= ours_set
     if out["asked"] == expect_sup:
         bad.append(("C13:heard-question-suppression", "after hearing the question %d ms earlier (QU=%s, responder=%s, their known answers %s ours) the browser query was %s"
                     % (case["gap"], case["qu"], case["registered"], "within" if theirs_set <= ours_set else "beyond", "sent" if out["asked"] else "suppressed")))
-    pairs = [out["svc"]]
-    if out["hear"][1] is not None:
-        # the records of the incoming message carry created = arrival time
-        pairs.append(out["hear"])
-    sig = ("hear", case["gap"], case["qu"], case["registered"], theirs_set <= ours_set, bool(case.get("cover")))
+    # the records of the incoming message carry created = arrival time
+    pairs = [out["svc"], out["hear"]] + ([out["tick"]] if "tick" in out else [])
+    sig = ("hear", case["gap"], case["qu"], case["registered"], theirs_set <= ours_set, bool(case.get("cover")), bool(case.get("tc")), bool(case.get("recase")), case.get("tick"))
     return pairs, bad, sig
 
 
@@ -387,7 +476,9 @@ def gen_loop_case(rng):
     r = rng.random()
     if r < 0.35:
         arrive = {"at": rng.choice([100, 230, 300, 400, 600, 1300, rng.randint(0, timeout)]), "what": rng.choice(["srv", "srv", "srv+txt", "txt", "all"])}
-    return {"stream": "loop", "simseed": rng.randint(0, 10**6), "timeout": timeout, "forced": rng.choice([None, None, None, "QU", "QM"]), "arrive": arrive}
+    tick = rng.choice([None, None, 250, 300, 350, 400, 600]) if arrive is None else None
+    return {"stream": "loop", "simseed": rng.randint(0, 10**6), "timeout": timeout, "forced": rng.choice([None, None, None, "QU", "QM"]), "arrive": arrive,
+            "tick_at": tick}
 
 
 def run_loop(case, res):
@@ -447,10 +538,17 @@ def run_loop(case, res):
 
             import asyncio
 
+            async def reaper():
+                if case.get("tick_at") is not None:
+                    await sim.sleep_ms(case["tick_at"])
+                    zc.engine._async_cache_cleanup()
+
+            rt = asyncio.ensure_future(reaper())
             ft = asyncio.ensure_future(feeder())
             o["result"] = await info.async_request(zc, case["timeout"], question_type=forced)
             o["end"] = sim.loop.ms
             await ft
+            await rt
             o["draws"] = [d[3] for d in sim.draws[n0:]]
         finally:
             cls._generate_request_query, cls.async_wait = og, ow
@@ -494,7 +592,10 @@ def run_loop(case, res):
         for i in range(2, len(queries)):
             gap = queries[i][0] - queries[i - 1][0]
             if gap < 1000:
-                sig = D13_SIG if i == 2 else "C13:lookup-spacing"
+                # D13's signature: the third query is early because *new* questions appeared; a mere repeat of questions already
+                # asked in the second query is not D13
+                new_qs = set(queries[i][2]) - set(queries[i - 1][2])
+                sig = D13_SIG if (i == 2 and new_qs) else "C13:lookup-spacing"
                 bad.append((sig, "lookup queries at +%d and +%d ms: query %d is %d ms after query %d (questions %s)"
                             % (queries[i - 1][0] - start, queries[i][0] - start, i + 1, gap, i, queries[i][2])))
     sig = ("loop", case["timeout"], case["forced"], bool(case["arrive"]) and case["arrive"]["what"], len(queries), len(iters))
